@@ -2,6 +2,7 @@
 //! See /verif/DESIGN.md.
 
 mod alloc;
+mod configs;
 mod driver;
 mod engine;
 mod model;
